@@ -38,10 +38,10 @@ def oid_of(i):
 
 
 CAPS = {
-    'file': dict(undo=True, record_iternext=True, last_inv=True,
+    'file': dict(undo=True, pack=True, record_iternext=True, last_inv=True,
                  loadserial=True, history_size=True, iter_all_recs=True,
                  resolve=True, delete=True, restore=True, reopen=True),
-    'mapping': dict(undo=False, record_iternext=False, last_inv=False,
+    'mapping': dict(undo=False, pack=True, record_iternext=False, last_inv=False,
                     loadserial=True, history_size=True, iter_all_recs=False,
                     iter_sorted=True, resolve=False, delete=False,
                     restore=False, reopen=False),
@@ -72,7 +72,9 @@ class Driver:
         self.outcomes = []
         self.issued = []            # oids returned by new_oid
         self.marks = []             # per committed txn: bookkeeping by checks
+        self.commit_log = []        # tids in commit order (packs keep it)
         self.on_commit = None       # hook(driver, tid) after each commit
+        self.opts_protect_root = self.opts.pop('protect_root', False)
         self.open(create=True)
 
     # -- storage life cycle ----------------------------------------------
@@ -217,6 +219,7 @@ class Driver:
             raise Violation('tid-order', 'tid %r after %r' % (tid, last))
         mt.tid = tid
         self.model.append(mt)
+        self.commit_log.append(tid)
         if self.on_commit is not None:
             self.on_commit(self, tid)
         oids = {r.oid for r in mt.recs}
@@ -342,17 +345,19 @@ class Driver:
 
     def op_undo(self, op):
         st = self.st
-        und = [t for t in self.model.txns]
-        if not und:
+        # targets name transactions by commit ordinal, so that a history
+        # means the same with and without a pack in between
+        if not self.commit_log:
             return 'skip'
         tids = []
         for k in op['targets']:
-            tid = und[k % len(und)].tid
+            tid = self.commit_log[k % len(self.commit_log)]
             if tid not in tids:
                 tids.append(tid)
         for tid in tids:
             tt = self.model.txn(tid)
-            if len({r.oid for r in tt.recs}) != len(tt.recs):
+            if tt is not None and \
+                    len({r.oid for r in tt.recs}) != len(tt.recs):
                 # the undone transaction holds several records of one oid
                 # (an earlier overlapping multi-undo): not modelled
                 return 'skip'
@@ -376,6 +381,10 @@ class Driver:
                 self.flag('undo-outcome', 'undo of %r refused (%s), model '
                           'says it must succeed' % (tids, str(err)[:60]))
             return 'undo-refused'
+        if plan is not None and self.opts_protect_root and any(
+                p[0] == z64 and p[1] == UNCREATE for p in plan):
+            st.tpc_abort(t)
+            return 'skip'       # histories that un-create the root object
         if plan is None:
             if 'open' not in str(refused):
                 self.flag('undo-outcome', 'undo of %r accepted, model says '
@@ -483,6 +492,256 @@ class Driver:
                       'tid %r' % (got, tid))
         return self.committed(got, mt)
 
+    # -- pack ----------------------------------------------------------------
+
+    def pack_stop(self, t):
+        from persistent.TimeStamp import TimeStamp
+        import time as _t
+        return TimeStamp(*_t.gmtime(t)[:5] + (t % 60,)).raw()
+
+    def pack_time(self, op):
+        """A pack time chosen relative to the committed transactions."""
+        from persistent.TimeStamp import TimeStamp
+        txns = self.model.txns
+        if 't' in op:
+            return op['t']
+        if not txns:
+            return self.sim.clock.now
+        k = op.get('at', -1)
+        where = op.get('where', 'at')
+        if where == 'before_all':
+            return TimeStamp(txns[0].tid).timeTime() - 10.0
+        if where == 'after_all':
+            return TimeStamp(txns[-1].tid).timeTime() + 10.0
+        i = k % len(txns)
+        t = TimeStamp(txns[i].tid).timeTime()
+        if where == 'between' and i + 1 < len(txns):
+            t2 = TimeStamp(txns[i + 1].tid).timeTime()
+            return (t + t2) / 2
+        if where == 'just_before':
+            return t - 1e-6
+        if where == 'just_after':
+            return t + 1e-6
+        return t
+
+    def reach(self, model, bound):
+        """oids reachable from the root in the state of `model` seen with
+        bound `bound` (revisions with tid < bound), by the references the
+        generator put in; plus the dangling references met."""
+        seen = set()
+        dangling = set()
+        todo = [z64]
+        while todo:
+            oid = todo.pop()
+            if oid in seen:
+                continue
+            sb = model.state_before(oid, bound)
+            if sb is None or sb[1].kind == UNCREATE:
+                dangling.add(oid)
+                continue
+            seen.add(oid)
+            todo.extend(sb[1].refs)
+        return seen, dangling
+
+    def lost_class(self, pre, oid, bound, gc):
+        """Names the one known way FileStorage's gc loses (revisions of) an
+        object: it was unreachable from the root at the pack time and a
+        later state references it again."""
+        if not gc or self.kind != 'file':
+            return ''
+        at_t, _ = self.reach(pre, bound)
+        if oid in at_t:
+            return ''
+        return '/unreachable-at-T'
+
+    def op_pack(self, op):
+        from ZODB.serialize import referencesf
+        st = self.st
+        m = self.model
+        t = self.pack_time(op)
+        stop = self.pack_stop(t)
+        gc = op.get('gc')
+        eff_gc = gc if gc is not None else self.opts.get('pack_gc', True)
+        if self.kind == 'mapping':
+            eff_gc = True if gc is None else gc
+            # MappingStorage's sweep follows the references of every
+            # remaining revision and mutates before it fails on a dangling
+            # one -- an application error; such histories are not packed
+            have = {o for o in m.oids() if m.revisions(o)}
+            for tt in m.txns:
+                for r in tt.recs:
+                    if any(x not in have for x in r.refs):
+                        return 'skip-dangling'
+        pre = Log(m.txns)
+        info = {'stop': stop, 'gc': eff_gc, 'raised': None, 'changed': False,
+                'pre': pre, 't': t}
+        self.last_pack = info
+        try:
+            if gc is None:
+                st.pack(t, referencesf)
+            else:
+                st.pack(t, referencesf, gc=gc)
+        except Exception as e:      # noqa: B902
+            info['raised'] = e
+            # a pack that cannot complete leaves the database unchanged
+            bad = sweep(st, m, self.caps, tag='after failed pack: ')
+            for name, b in bad[:3]:
+                self.flag('failed-pack-changed:' + name, b)
+            return 'pack-raises:' + type(e).__name__
+        self.verify_pack(info)
+        return 'pack'
+
+    def verify_pack(self, info):
+        """C07: compare the packed storage with the model before the pack
+        and adopt what legitimately remains as the new model."""
+        st = self.st
+        pre = info['pre']
+        stop = info['stop']
+        gc = info['gc']
+        bound = p64(u64(stop) + 1)
+        later = [t for t in pre.txns if t.tid > stop]
+        # K: objects reachable from the root in the state at T or any later
+        # state (gc), or every object (no gc)
+        if gc:
+            K = set()
+            dangling = set()
+            for b in [bound] + [p64(u64(t.tid) + 1) for t in later]:
+                r, d = self.reach(pre, b)
+                K |= r
+                dangling |= d
+        else:
+            K = set(pre.oids())
+            dangling = set()
+        info['K'] = K
+        # what the storage holds now
+        try:
+            it = st.iterator()
+            got = []
+            for tr in it:
+                ext = getattr(tr, 'extension_bytes', None)
+                if ext is None:
+                    ext = self.ext_bytes(getattr(tr, 'extension', {}))
+                got.append((tr.tid, tr.status, tr.user, tr.description, ext,
+                            [(r.oid, r.data) for r in tr]))
+            if hasattr(it, 'close'):
+                it.close()
+        except Exception as e:      # noqa: B902
+            self.flag('pack-iterator', 'iterating the packed storage raised '
+                      '%s: %s' % (type(e).__name__, str(e)[:80]))
+            raise Violation('pack-iterator', str(e))
+        new_txns = []
+        by_tid = {t.tid: t for t in pre.txns}
+        seen_tids = set()
+        for tid, status, user, desc, ext, recs in got:
+            mt = by_tid.get(tid)
+            if mt is None:
+                self.flag('pack-invents', 'transaction %r appeared' % tid)
+                continue
+            seen_tids.add(tid)
+            if (user, desc) != (mt.user, mt.desc) or \
+                    _ext(ext) != _ext(mt.ext):
+                self.flag('pack-metadata', 'metadata of %r changed' % tid)
+            if tid > stop:
+                if status != mt.status:
+                    self.flag('pack-later-txn', 'status of %r changed' % tid)
+                want = [(r.oid, r.data) for r in mt.recs]
+                if sorted(recs, key=_k) != sorted(want, key=_k) if \
+                        self.caps.get('iter_sorted') else recs != want:
+                    self.flag('pack-later-txn', 'records of transaction %r '
+                              'after the pack time changed' % tid)
+                new_txns.append(mt)
+                continue
+            # packed area: records must be a subset of the original ones
+            last = mt.last_recs()
+            kept = []
+            for oid, data in recs:
+                r = last.get(oid)
+                if r is None or r.data != data:
+                    self.flag('pack-invents', 'record of %r in %r is not '
+                              'an original record' % (oid, tid))
+                    continue
+                nr = r.copy()
+                if nr.kind == BACK:
+                    nr.kind = DATA
+                    nr.src_tid = None
+                kept.append(nr)
+            nt = MTxn(tid, status, mt.user, mt.desc, mt.ext, kept, mt.kind)
+            if kept != [] or recs == []:
+                new_txns.append(nt)
+            if len(kept) != len(mt.recs):
+                info['changed'] = True
+        # of several kept revisions of one oid in the packed area only the
+        # newest is promised to queries; older ones serve back pointers
+        newest = {}
+        for nt in new_txns:
+            if nt.tid <= stop:
+                for r in nt.recs:
+                    newest[r.oid] = r
+        for nt in new_txns:
+            if nt.tid <= stop:
+                for r in nt.recs:
+                    if newest[r.oid] is not r:
+                        r.shadow = True
+        for t in later:
+            if t.tid not in seen_tids:
+                self.flag('pack-later-txn', 'transaction %r after the pack '
+                          'time is gone' % t.tid)
+        if len(got) != len(pre.txns):
+            info['changed'] = True
+        newm = Log(new_txns)
+        # must-keep: for every k in K and every bound > stop the answers of
+        # the model before the pack still hold
+        bounds = [bound] + [p64(u64(t.tid) + d) for t in later
+                            for d in (0, 1)] + [b'\x7f' + b'\xff' * 7]
+        views = [pre] + ([pre.shadow_view()] if pre.has_shadow() else [])
+        for oid in sorted(K):
+            for b in bounds:
+                if b <= stop:
+                    continue
+                got_ = q(st.loadBefore, oid, b)
+                for view in views:
+                    want = view.x_loadBefore(oid, b)
+                    if want[0] == 'ok':
+                        ok = got_ == ('ok', want[1:])
+                    elif want[0] in ('none', 'gone'):
+                        # the object did not exist (yet) at this bound
+                        ok = got_ in (('ok', None), ('key',))
+                    else:
+                        ok = got_[0] == 'key'
+                    if ok:
+                        break
+                want = pre.x_loadBefore(oid, b)
+                if not ok:
+                    self.flag('pack-lost' + self.lost_class(pre, oid, bound,
+                                                            gc),
+                              'loadBefore(%r, %r) after pack(%r,'
+                              ' gc=%s): got %r, before the pack %r'
+                              % (oid, b, stop, gc, _s(got_), _s(want)))
+                    break
+                if want[0] == 'ok' and self.caps.get('loadserial', True):
+                    g2 = q(st.loadSerial, oid, want[2])
+                    if g2 != ('ok', want[1]):
+                        self.flag('pack-lost' + self.lost_class(pre, oid,
+                                                                bound, gc),
+                                  'loadSerial(%r, %r) after '
+                                  'pack: got %r' % (oid, want[2], _s(g2)))
+                        break
+        # dangling-reference scan of the packed state: nothing reachable
+        # from the root now may be missing, unless it was missing before
+        r_after, d_after = self.reach(newm, b'\x7f' + b'\xff' * 7)
+        r_before, d_before = self.reach(pre, b'\x7f' + b'\xff' * 7)
+        for oid in sorted(d_after - d_before):
+            self.flag('pack-dangling' + self.lost_class(pre, oid, bound, gc),
+                      'after pack(%r, gc=%s) object %r is '
+                      'referenced from the root but gone' % (stop, gc, oid))
+        # the newest transaction may have been dropped as garbage: until the
+        # storage is reopened lastTransaction() may still name it
+        newm.alt_last = self.model.alt_last
+        if newm.last_tid() != pre.last_tid():
+            newm.alt_last = pre.last_tid()
+        self.model = newm
+        info['new'] = newm
+
     def op_reopen(self, op):
         if not self.caps.get('reopen'):
             return 'skip'
@@ -495,6 +754,7 @@ class Driver:
             self.flag('reopen-raises', 'reopening the storage raised %s: %s'
                       % (type(e).__name__, str(e)[:80]))
             raise Violation('reopen-raises', str(e))
+        self.model.alt_last = None
         self.full_sweep('after reopen: ')
         return 'reopen'
 
@@ -599,6 +859,20 @@ class Driver:
             self.flag('file-vs-model', '%sparsed file differs from the model '
                       'at transaction #%d (file has %d, model %d)'
                       % (tag, n, len(hist), len(want)))
+
+
+def _ext(b):
+    from .sweep import ext_dict
+    return ext_dict(b) if isinstance(b, bytes) else (b or {})
+
+
+def _k(x):
+    return x[0]
+
+
+def _s(x):
+    from .sweep import _short
+    return _short(x)
 
 
 def _markers(x, out=None):
